@@ -357,7 +357,7 @@ pub fn run_adversarial(cfg: &Value) -> Value {
                 b0.extend_from_slice(&env::new_elem(is_point, &format!("use_{}_{}", i, e)).0);
             }
             if let Ok(p0) = RistrettoRangeProof::from_bytes(&b0) {
-                let _ = catch_unwind(AssertUnwindSafe(|| RistrettoRangeProof::verify_batch(&mut [Transcript::new(b"first use")], &[st0.clone()], &[p0], VerifyAction::VerifyOnly)));
+                let _ = catch_unwind(AssertUnwindSafe(|| RistrettoRangeProof::verify_batch(&mut [Transcript::new(b"first use")], std::slice::from_ref(&st0), &[p0], VerifyAction::VerifyOnly)));
             }
             pc_gens = st0.generators.pc_gens().clone();
         }
